@@ -737,7 +737,75 @@ fn text_agg_case(ctx: &mut Ctx, r: &mut Rng) {
     report_text(ctx, "text-two-decimals-aggregate", &q, input.as_bytes(), res);
 }
 
+/// the average of integers: the exact sum (well inside ±2^53) divided by the count.  When the
+/// mean is itself an integer it must come out as exactly that integer ("integers … stay exact …
+/// through … aggregation"); otherwise as a double next to the correctly rounded quotient —
+/// whatever the order of the rows and however the running state is kept.
+fn check_avg_of_integers(ctx: &mut Ctx) {
+    let n = ctx.budget(500, 20000);
+    for _ in 0..n {
+        let mut r = ctx.rng.fork();
+        let rows = 2 + r.below(9);
+        let big = r.chance(20);
+        let vals: Vec<i64> = (0..rows).map(|_| if big { r.range(-(1 << 40), 1 << 40) } else { r.range(-6, 14) }).collect();
+        // make the mean integral in half of the cases by adjusting the last value
+        let mut vals = vals;
+        if r.chance(50) {
+            let s: i64 = vals.iter().sum();
+            let m = s.rem_euclid(rows as i64);
+            let last = vals.len() - 1;
+            vals[last] -= m;
+        }
+        let spell = |v: i64, r: &mut Rng| match r.below(4) {
+            0 => format!("\"{}\"", v),
+            1 => format!("{}.0", v),
+            _ => format!("{}", v),
+        };
+        let input: String = vals.iter().map(|v| format!("{{\"v\":{},\"k\":\"g\"}}\n", spell(*v, &mut r))).collect();
+        let q = (*r.pick(&["* | json | avg(v) as a", "* | json | average(v) as a", "* | json | avg(v) as a by k | fields a", "* | json | avg(v) as a, count, sum(v) as s | fields a", "* | json | avg(v + 0) as a"])).to_string();
+        let key = ckey(&q, input.as_bytes());
+        let info = serde_json::json!({"query": q, "input": input});
+        let run = imp::run(&q, input.as_bytes(), "json", 10);
+        if !run.compiled || run.panicked.is_some() || run.hung {
+            ctx.case("avg-of-integers", "", "skip", serde_json::json!({"why": "rejected or crashed (judged elsewhere)", "case": info}));
+            continue;
+        }
+        let got = match canon::parse(String::from_utf8_lossy(&run.stdout).trim_end()) {
+            Ok(J::Arr(rows)) => rows.first().and_then(|row| match row { J::Obj(kvs) => kvs.iter().find(|kv| kv.0 == "a").map(|kv| kv.1.clone()), _ => None }),
+            _ => None,
+        };
+        let sum: i64 = vals.iter().sum();
+        let cnt = vals.len() as i64;
+        let verdict: Result<(), String> = match got {
+            None => Err("no value for the average".into()),
+            Some(j) => {
+                let text = format!("{:?}", j);
+                let as_f = match &j { J::Int(i) => Some(*i as f64), J::Float(f) => Some(*f), _ => None };
+                if sum % cnt == 0 {
+                    let want = sum / cnt;
+                    match &j {
+                        J::Int(i) if *i == want => Ok(()),
+                        J::Float(f) if *f == want as f64 => Ok(()),
+                        _ => Err(format!("the mean of these integers is exactly {}, the result is {}", want, text)),
+                    }
+                } else {
+                    let want = sum as f64 / cnt as f64; // both exact, IEEE division: correctly rounded
+                    match as_f {
+                        Some(f) if (f - want).abs() <= (want.abs() * f64::EPSILON) => Ok(()),
+                        _ => Err(format!("the mean is {:?} (exact sum {} over {}), the result is {}", want, sum, cnt, text)),
+                    }
+                }
+            }
+        };
+        match verdict {
+            Ok(()) => ctx.case("avg-of-integers", &key, "pass", info),
+            Err(w) => ctx.case("avg-of-integers", &key, "viol", serde_json::json!({"class": "", "what": w, "got": String::from_utf8_lossy(&run.stdout), "case": info})),
+        }
+    }
+}
+
 pub fn check(ctx: &mut Ctx) {
+    check_avg_of_integers(ctx);
     let n = ctx.budget(6000, 400000);
     for i in 0..n {
         let mut r = ctx.rng.fork();
